@@ -760,10 +760,15 @@ impl<E: Effect> Executor<E> {
         // Store the result in the process's awaiting map (retaining as it enters storage).
         if self.get_process(awaiter).is_some() {
             self.retain(&injected_result);
-            self.get_process_mut(awaiter)
+            let previous = self
+                .get_process_mut(awaiter)
                 .unwrap()
                 .awaiting
                 .insert(awaited, Some(injected_result));
+            // Replacing an earlier stored result drops the reference it held.
+            if let Some(Some(old)) = previous {
+                self.release(&old);
+            }
         }
 
         // Re-queue awaiter to retry its Select instruction
@@ -2216,8 +2221,16 @@ impl<E: Effect> Executor<E> {
 
         // If we found PIDs, register awaits before processing sources
         if !pid_targets.is_empty() {
+            // A target awaited by an earlier select still has its stored result here; the entry
+            // is reset, so drop the reference the old result held.
+            let mut stale = Vec::new();
             for target in &pid_targets {
-                process.awaiting.insert(*target, None);
+                if let Some(Some(old)) = process.awaiting.insert(*target, None) {
+                    stale.push(old);
+                }
+            }
+            for value in &stale {
+                self.release(value);
             }
 
             self.mark_selecting(pid);
